@@ -389,7 +389,12 @@ class C04(Check):
         else:
             pats = std_patterns(kind, n, random.Random(case["pseed"]), case.get("tier", "quick"), case.get("full"))
         dropped = 0
-        for cls, p in pats:
+        for pn, (cls, p) in enumerate(pats):
+            if pn % 64 == 63:  # a failing parse (truncated word) between receptions: whatever it leaves behind must not matter
+                try:
+                    parse(kind, wire[: max(0, n // 2 - 1)].copy())
+                except Exception:
+                    pass
             # guard: the pattern must be a non-codeword of the standard's code (computed, not assumed)
             if poly is not None:
                 e = [0] * len(order)
